@@ -95,6 +95,7 @@ pub struct Outcome {
     pub evictions: u64,
     pub computes: u64,
     pub load_error: bool,
+    pub load_error_text: String,
 }
 
 pub fn run_case(case: &Case) -> Outcome {
@@ -102,7 +103,7 @@ pub fn run_case(case: &Case) -> Outcome {
     clear_last_panic();
     let mut file = match ops::open(&case.doc.bytes, &ctl, case.tolerant, &case.doc.password) {
         Ok(f) => f,
-        Err(_) => return Outcome { answers: vec![], panic: None, evictions: 0, computes: 0, load_error: true },
+        Err(e) => return Outcome { answers: vec![], panic: None, evictions: 0, computes: 0, load_error: true, load_error_text: crate::digest::Answer::err(&e).text },
     };
     let base = ctl.events();
     *ctl.evict_at.lock().unwrap() = case.evict_at.iter().map(|e| base + e).collect();
@@ -134,7 +135,7 @@ pub fn run_case(case: &Case) -> Outcome {
         Ok(()) => None,
         Err(_) => Some(take_last_panic().unwrap_or_else(|| "panic".into())),
     };
-    Outcome { answers, panic, evictions: ctl.evictions_fired.load(Ordering::Relaxed), computes: ctl.computes.load(Ordering::Relaxed), load_error: false }
+    Outcome { answers, panic, evictions: ctl.evictions_fired.load(Ordering::Relaxed), computes: ctl.computes.load(Ordering::Relaxed), load_error: false, load_error_text: String::new() }
 }
 
 // ---------------------------------------------------------------------------------------------
@@ -200,6 +201,36 @@ fn sloppy_doc(pool: &mut Pool, k: u64) -> Option<Arc<Doc>> {
     Some(Arc::new(d))
 }
 
+/// A rich document under a cross-reference stream whose catalog is stored in the object stream
+/// like most other objects; k = 0, 1 plain, 2.. encrypted (RC4 revisions 2, 3, 4 of the handler).
+fn rootstm_doc(verif_seed: u64, k: u64) -> Option<Arc<Doc>> {
+    let mut rng = Rng::new(run_seed(verif_seed, "doc/rootstm", k));
+    let mut layout = crate::docgen::Layout::random(&mut rng);
+    layout.xref_stream = true;
+    layout.compress = true;
+    layout.compress_root = true;
+    layout.encrypt = match k {
+        0 | 1 => None,
+        2 => Some((2, 5)),
+        3 => Some((3, 5)),
+        4 => Some((3, 16)),
+        _ => Some((4, 16)),
+    };
+    let o = crate::families::RichOpts::random(&mut rng);
+    let spec = crate::families::rich(&mut rng, &o, &layout);
+    let w = crate::docgen::write_doc(&spec);
+    if let Err(e) = crate::docgen::self_check(&spec, &w) {
+        eprintln!("HARNESS-ERROR: writer self-check failed (C12 rootstm document {}): {}", k, e);
+        std::process::exit(2);
+    }
+    let d = Doc::from_bytes(&format!("rootstm:{}", k), "rootstm", w.bytes, b"");
+    if d.inv.loadable {
+        Some(Arc::new(d))
+    } else {
+        None
+    }
+}
+
 pub struct C12 {
     pool: Option<Pool>,
     alone: Alone,
@@ -207,6 +238,9 @@ pub struct C12 {
     /// rich documents in which some objects are not closed by `endobj` (read only with
     /// allow_missing_endobj); used by the partial-option-switch batch only
     sloppy: Vec<Arc<Doc>>,
+    /// rich documents whose catalog is a member of an object stream, plain and encrypted; used by one
+    /// random run in sixteen
+    rootstm: Vec<Arc<Doc>>,
     items: Vec<EnumItem>,
     /// prefix sums of cases per item
     starts: Vec<u64>,
@@ -218,7 +252,7 @@ const MODES: [(bool, bool); 3] = [(true, true), (true, false), (false, true)];
 
 impl C12 {
     pub fn new() -> C12 {
-        C12 { pool: None, alone: Alone::new(), docs: vec![], sloppy: vec![], items: vec![], starts: vec![], enum_total: 0, prepared_for: None }
+        C12 { pool: None, alone: Alone::new(), docs: vec![], sloppy: vec![], rootstm: vec![], items: vec![], starts: vec![], enum_total: 0, prepared_for: None }
     }
 
     fn arity(tier: Tier) -> u32 {
@@ -289,6 +323,7 @@ impl C12 {
         }
         // kept apart from `docs` so that the cases drawn for them stay what they were
         self.sloppy = (0..4).filter_map(|k| sloppy_doc(&mut pool, k)).collect();
+        self.rootstm = (0..6).filter_map(|k| rootstm_doc(verif_seed, k)).collect();
         let per_doc_objs = if tier == Tier::Quick { 24 } else { 160 };
         let mut items = vec![];
         for (di, d) in docs.iter().enumerate() {
@@ -382,7 +417,10 @@ impl C12 {
             return self.sloppy_case(ctx, i);
         }
         let mut rng = Rng::new(run_seed(ctx.verif_seed, "C12", i));
-        let doc = self.docs[rng.usize(self.docs.len())].clone();
+        let mut doc = self.docs[rng.usize(self.docs.len())].clone();
+        if i % 16 == 14 && !self.rootstm.is_empty() {
+            doc = self.rootstm[(i / 16) as usize % self.rootstm.len()].clone();
+        }
         let objs: Vec<(u64, ObjKind)> = doc.inv.objects.iter().cloned().filter(|(_, k)| *k != ObjKind::Unreadable).collect();
         let mut focus = vec![];
         for _ in 0..1 + rng.usize(4) {
@@ -485,6 +523,15 @@ impl C12 {
 
     fn judge(&mut self, case: &Case, out: &Outcome) -> Option<(String, String)> {
         if out.load_error {
+            // opening is the first call: a document that opens without caches opens with them
+            let bits = if case.tolerant { ops::OPTS_TOLERANT } else { ops::OPTS_STRICT };
+            if self.alone.opens(&case.doc, bits) {
+                let variant = out.load_error_text.split(':').next().unwrap_or("").to_string();
+                return Some((
+                    format!("the document opens without caches and not with them: {} ({})", variant, if case.tolerant { "tolerant" } else { "strict" }),
+                    format!("cached open: {}", out.load_error_text.chars().take(300).collect::<String>()),
+                ));
+            }
             return None;
         }
         if let Some(p) = &out.panic {
